@@ -149,6 +149,11 @@ def run(ctx: Ctx):
     # values that are == and hash alike but have different code (0.0 / -0.0, 1 / True / 1.0) in one session
     sp += [{"source": "from inline_snapshot import snapshot\n\n\ndef test_a():\n    assert [0.0, -0.0, 1.5] == snapshot()\n    assert -0.0 == snapshot()\n    assert [1, True, 1.0, 0, False] == snapshot()\n\n\n"
                       "def test_b():\n    assert {'z': -0.0, 'p': 0.0} == snapshot({'z': 5.0})\n    assert (0.0, -0.0) == snapshot((-0.0,))\n"}]
+    # F-94: a leaf (a set: no adapter) whose code holds 1-tuples, long enough to be wrapped, in a file that is not formatter-clean (one blank line after the import):
+    # the leaf comparison of Model/Tokens.v reports an update for the code just written (C08_leaf_trailing_comma_update_refuted), and the leaf replaced alone is laid out differently
+    sp += [{"source": "from inline_snapshot import snapshot\n\ndef test_a():\n    assert [{(n,) for n in range(10**15, 10**15 + 5)}] == snapshot()\n"},
+           {"source": "from inline_snapshot import snapshot\n\ndef test_a():\n    assert {'k': frozenset({(10**20 + n,) for n in range(4)}), 'j': {(1,): 2}} == snapshot({'k': 0})\n"},
+           {"source": "from inline_snapshot import snapshot\n\ndef test_a():\n    snapshot([{(10**15 + n,) for n in range(5)}])\n"}]
     # externals created, replaced and trimmed in the session that also writes the reference: the second session finds nothing to do in the storage either
     sp += [{"source": "from inline_snapshot import snapshot, outsource, external\n\n\ndef test_a():\n    assert outsource('a' * 40) == snapshot()\n\n\n"
                       "def test_b():\n    assert [outsource(b'b' * 40), 1] == snapshot([0])\n", "externals": 2}]
